@@ -251,13 +251,13 @@ fn spec(s: &Solid) -> Result<Spec, Fail> {
             ensure!(span > 0.0 && span <= 1.0, "bad-case", "lathe azimuth span {span} turns");
             for i in 0..n {
                 ensure!(p[i][0] > 0.0 || (p[i][0] == 0.0 && (i == 0 || i == n - 1)), "bad-case", "profile x must be > 0 (0 allowed at the ends)");
-                ensure!(i == 0 || p[i][1] > p[i - 1][1], "bad-case", "profile y must increase strictly");
+                ensure!(i == 0 || p[i][1] > p[i - 1][1] || p[i] == p[i - 1], "bad-case", "profile y must increase strictly (a point may be repeated: a hard crease)");
             }
             let mut mf = f64::MAX;
             let mut scale = 0f64;
             for i in 0..n {
                 scale = scale.max((p[i][0].powi(2) + p[i][1].powi(2)).sqrt());
-                if i > 0 {
+                if i > 0 && p[i] != p[i - 1] {
                     mf = mf.min(((p[i][0] - p[i - 1][0]).powi(2) + (p[i][1] - p[i - 1][1]).powi(2)).sqrt());
                 }
                 if p[i][0] > 0.0 {
@@ -624,7 +624,12 @@ fn check_surface(s: &Solid, sp: &Spec, m: &M, mg: &Merged, obs: &mut Obs) -> Che
                 let tol = tol_surface(prof[bj][0], xmax);
                 note_surface(obs, best, tol);
                 ensure!(best <= tol, "vertex-off-surface", "lathe vertex {i} {:?} (rho {}, y {}) is not on the revolved profile; nearest profile point {:?} is {best:.3e} away", p, rho(*p), p[1], prof[bj]);
-                seen[bj] = true;
+                // repeated profile points (hard creases) are the same place: a vertex there answers for all copies
+                for (j, q) in prof.iter().enumerate() {
+                    if *q == prof[bj] {
+                        seen[j] = true;
+                    }
+                }
             }
             if let Some(j) = seen.iter().position(|s| !s) {
                 fail!("extent-missing", "lathe: no vertex generated for profile point {j} {:?}", prof[j]);
@@ -966,7 +971,11 @@ fn lathe_case(max_sectors: u32) -> BoxedStrategy<Solid> {
                 let l = (dx * dx + dy * dy).sqrt();
                 [dy / l, -dx / l]
             };
-            let pts: Vec<[X; 4]> = (0..n)
+            // a hard crease: an interior point given twice, the first copy with the normal of the segment before it, the
+            // second with that of the segment after it (how a profile gets a sharp edge; the repeated point makes a ring of
+            // zero-area faces)
+            let crease = if n >= 3 && lowsec & 0x30 == 0x10 { Some(1 + (lowsec as usize >> 6) % (n - 2)) } else { None };
+            let mut pts: Vec<[X; 4]> = (0..n)
                 .map(|i| {
                     let mut nn = [0.0f64; 2];
                     if i > 0 {
@@ -985,6 +994,16 @@ fn lathe_case(max_sectors: u32) -> BoxedStrategy<Solid> {
                     xs([p[i][0], p[i][1], rot[0] as f32, rot[1] as f32])
                 })
                 .collect();
+            if let Some(ci) = crease {
+                let side = |a: [f32; 2], b: [f32; 2]| {
+                    let q = perp(a, b);
+                    [X(q[0] as f32 * nlen), X(q[1] as f32 * nlen)]
+                };
+                let (n0, n1) = (side(p[ci - 1], p[ci]), side(p[ci], p[ci + 1]));
+                let pos = [pts[ci][0], pts[ci][1]];
+                pts[ci] = [pos[0], pos[1], n0[0], n0[1]];
+                pts.insert(ci + 1, [pos[0], pos[1], n1[0], n1[1]]);
+            }
             Solid::Lathe { pts, sectors, capped, az_start: X(az.0), az_end: X(az.1) }
         })
         .boxed()
@@ -1070,6 +1089,9 @@ fn check_generated(s: &Solid, obs: &mut Obs) -> Check {
             for j in [i.wrapping_sub(1), i + 1] {
                 if j < p.len() {
                     let (a, b) = if j < i { (p[j], p[i]) } else { (p[i], p[j]) };
+                    if a == b {
+                        continue; // the repeated point of a hard crease: its copies answer for one side each
+                    }
                     let (dx, dy) = (b[0] - a[0], b[1] - a[1]);
                     let l = (dx * dx + dy * dy).sqrt();
                     let n = [pts[i][2].0 as f64, pts[i][3].0 as f64];
@@ -1103,6 +1125,9 @@ fn check_generated(s: &Solid, obs: &mut Obs) -> Check {
             7..=24 => "lathe:sectors 7..24",
             _ => "lathe:sectors 25..96",
         });
+        if p.windows(2).any(|w| w[0] == w[1]) {
+            obs.class("lathe:profile with a repeated point (hard crease)");
+        }
         obs.class(match p.len() {
             2 => "lathe:2 points",
             3..=4 => "lathe:3..4 points",
